@@ -3,6 +3,7 @@ package connect
 import (
 	"bytes"
 	"context"
+	"encoding/base64"
 	"errors"
 	"io"
 	"net/http"
@@ -441,14 +442,37 @@ func HarnessC05ReferenceGRPCResponse() {
 	web := nondetBool("web")
 	fail := nondetBool("fail")
 	upper := nondetBool("upperHex")
-	msg := nondetString("message", bound("msgLen", 2, 3))
-	assumeNoOuterBlanks(msg)
+	// with the binary status present the text is concrete (its length, which
+	// decides the base64 padding, is still chosen by the solver): symbolic
+	// base64 on top of symbolic percent-encoding is not affordable
+	details := 0
+	if fail {
+		details = nondetChoice("statusDetails", 3)
+	}
+	var msg string
+	if details > 0 {
+		msg = "nah!"[:nondetChoice("detailsMsgLen", 5)]
+	} else {
+		msg = nondetString("message", bound("msgLen", 2, 3))
+		assumeNoOuterBlanks(msg)
+	}
 	payload := nondetBytes("payload", 2)
 	header := http.Header{"Content-Type": {"application/grpc+proto"}}
 	trailer := http.Header{}
 	st := http.Header{"Grpc-Status": {"0"}}
 	if fail {
 		st = http.Header{"Grpc-Status": {"9"}, "Grpc-Message": {refPercentEncode(msg, upper)}}
+		// a conformant peer may also send the binary status, base64 with or
+		// without padding (the status message in the registered codec's layout:
+		// 4-byte code, then the text)
+		if details > 0 {
+			raw := append([]byte{0, 0, 0, 9}, msg...)
+			enc := base64.RawStdEncoding.EncodeToString(raw)
+			if details == 2 {
+				enc = base64.StdEncoding.EncodeToString(raw)
+			}
+			st["Grpc-Status-Details-Bin"] = []string{enc}
+		}
 	}
 	var body []byte
 	if !fail {
@@ -457,7 +481,7 @@ func HarnessC05ReferenceGRPCResponse() {
 	if web {
 		header = http.Header{"Content-Type": {"application/grpc-web+proto"}}
 		block := ""
-		for _, k := range []string{"Grpc-Status", "Grpc-Message"} {
+		for _, k := range []string{"Grpc-Status", "Grpc-Message", "Grpc-Status-Details-Bin"} {
 			if v, ok := st[k]; ok {
 				block += strings.ToLower(k) + ": " + v[0] + "\r\n"
 			}
